@@ -799,8 +799,80 @@ fn overflow_counter_with_feedback(rep: &mut Report) {
     rep.set("writer_model_overflow_reports_feeding_back", cases);
 }
 
+/// C01 / C04 with the smallest legal configuration: a flush interval of 1 ns (the builder accepts
+/// anything above zero) on a REAL queue with its writer thread. Fixed scenario with real time: 15
+/// entries appended to a live queue (capacity 64, nothing overflows) reach the stream, in order,
+/// and a flush request completes, within 5 s - orders of magnitude more than the microseconds
+/// this takes; a writer that never gets to its drain pass is what the bound is for.
+fn smallest_flush_interval(rep: &mut Report, prop: &str) {
+    let seen = Arc::new(Mutex::new(Vec::new()));
+    let (queue, handle) = BackgroundQueueBuilder::new()
+        .capacity(64)
+        .flush_interval(std::time::Duration::from_nanos(1))
+        .build::<Tag>(IdStream(seen.clone()));
+    use metrique_writer::EntrySink;
+    for id in 0..15u64 {
+        queue.append(Tag(id));
+    }
+    let fut = queue.flush_async();
+    let (tx, rx) = std::sync::mpsc::channel();
+    let waiter = std::thread::spawn(move || {
+        futures_block_on(fut);
+        let _ = tx.send(());
+    });
+    let flushed = rx.recv_timeout(std::time::Duration::from_secs(5)).is_ok();
+    let got = seen.lock().unwrap().clone();
+    let expect: Vec<u64> = (0..15).collect();
+    rep.set("writer_model_flush_interval_1ns", json!({"appended": 15, "reached_the_stream_within_5s": got.len(), "flush_request_completed_within_5s": flushed}));
+    if prop == "C01" && got != expect {
+        rep.violation(
+            "writer:live-queue-does-not-deliver:flush-interval-1ns",
+            format!("flush_interval(1 ns), capacity 64: 15 entries appended to the live queue, after 5 s the stream has seen {got:?}"),
+            json!({"flush_interval_ns": 1, "capacity": 64, "appended": 15, "reached_the_stream": got}),
+        );
+    }
+    if prop == "C04" && !flushed {
+        rep.violation(
+            "writer:flush-request-never-completes:flush-interval-1ns",
+            "flush_interval(1 ns), capacity 64: a flush request made after 15 appends has not completed after 5 s".to_string(),
+            json!({"flush_interval_ns": 1, "capacity": 64, "appended": 15, "reached_the_stream": got}),
+        );
+    }
+    if flushed {
+        let _ = waiter.join();
+        drop(queue);
+        drop(handle);
+    } else {
+        // the writer is not making progress: do not join it
+        std::mem::forget(waiter);
+        std::mem::forget(handle);
+    }
+}
+
+/// minimal block_on (no runtime needed: FlushWait is woken by the writer thread)
+fn futures_block_on<F: std::future::Future>(fut: F) -> F::Output {
+    struct Unpark(std::thread::Thread);
+    impl std::task::Wake for Unpark {
+        fn wake(self: Arc<Self>) {
+            self.0.unpark();
+        }
+    }
+    let waker = std::task::Waker::from(Arc::new(Unpark(std::thread::current())));
+    let mut cx = Context::from_waker(&waker);
+    let mut fut = std::pin::pin!(fut);
+    loop {
+        if let std::task::Poll::Ready(v) = fut.as_mut().poll(&mut cx) {
+            return v;
+        }
+        std::thread::park_timeout(std::time::Duration::from_millis(50));
+    }
+}
+
 pub fn run(prop: &'static str) {
     let mut rep = Report::from_args(prop, "model_checking");
+    if (prop == "C01" || prop == "C04") && rep.replay.is_none() {
+        smallest_flush_interval(&mut rep, prop);
+    }
     if prop == "C09" && rep.replay.is_none() {
         overflow_counter_with_feedback(&mut rep);
         wide_entries_keep_their_capacity(&mut rep);
